@@ -13,9 +13,10 @@
     change with the schema):
       KnownTypeNames, VariablesAreInputTypes, FragmentsOnCompositeTypes, FieldsOnCorrectType, ScalarLeafs,
       KnownArgumentNames, ProvidedRequiredArguments, KnownDirectives
-    NOT covered: VariablesInAllowedPosition, ValuesOfCorrectType (the shape facts they need are
-    `nobreaking_input_fields`, `nobreaking_enum_values_kept`, `nobreaking_field_arguments_any`: every argument /
-    input field keeps accepting what it accepted), OverlappingFieldsCanBeMerged (FALSE: finding G4).
+    covered elsewhere: ValuesOfCorrectType (`nobreaking_valuesOfCorrectType`, Props/C20_rules_values.lean) and
+    VariablesInAllowedPosition (`nobreaking_variablesInAllowedPosition`, Props/C20_rules_vars.lean); all 25 together:
+    `operations_stay_valid_rules_all` (Props/C20_rules_all.lean).
+    NOT covered: OverlappingFieldsCanBeMerged (FALSE: finding G4).
 
   Hypothesis `OpsRooted`: every operation of the document has a root type in the OLD schema. It cannot be dropped:
   the validator accepts `mutation { foo }` on a schema WITHOUT a mutation type (no rule looks at it), and adding
